@@ -1,4 +1,5 @@
 (* Lemmas and proofs about Model/Committee.v *)
+From Coq Require Import Sorted.
 From Kava Require Import Base.Prelude Base.Dec Model.Json Model.Committee Proofs.Json.
 Local Open Scope string_scope.
 Local Open Scope list_scope.
@@ -327,12 +328,12 @@ Ltac brk H :=
   | context [match ?x with Some _ => _ | None => _ end] => destruct x eqn:?; try discriminate H
   | context [match ?x with Ok _ _ => _ | Err => _ | Panic => _ end] => destruct x eqn:?; try discriminate H
   | context [match ?x with CMember => _ | CToken _ => _ end] => destruct x eqn:?; try discriminate H
-  | context [match ?x with CText => _ | CParam _ => _ | CUpgrade _ => _ | CCommitteeChange => _ end] => destruct x eqn:?; try discriminate H
+  | context [match body ?c with _ => _ end] => destruct (body c) eqn:?; try discriminate H
   | context [let '(_, _) := ?x in _] => destruct x eqn:?
   end.
 
 Definition is_msg (o : op) : Prop :=
-  match o with OAllows _ _ | OSubmit _ _ _ | OVote _ _ _ => True | _ => False end.
+  match o with OAllows _ _ | OSubmit _ _ _ | OVote _ _ _ | OOracle _ => True | _ => False end.
 
 (* queries, submissions and votes change neither parameters, nor committees, nor balances, nor time *)
 Lemma msg_no_effect sls s o s' x : is_msg o -> step sls s o = Ok s' x ->
@@ -347,17 +348,15 @@ Qed.
 Lemma committee_change_refused sls s proposer cid : forall s' x,
   step sls s (OSubmit proposer cid CCommitteeChange) <> Ok s' x.
 Proof.
-  intros s' x H. cbn in H. brk H.
+  intros s' x H. cbn in H. first [discriminate H | brk H].
 Qed.
 
 (* the dry run and the real run are the same computation on the same state *)
 Lemma validated_handler_ok sls ht ps c : validate_pub sls ht ps c = true ->
   exists ps', run_handler sls ht ps c = Ok ps' tt.
 Proof.
-  destruct c; cbn; [eauto| | |discriminate].
-  - intros H. apply Bool.andb_true_iff in H. destruct H as [_ H].
-    destruct (run_changes sls ps changes) as [ps' []| |]; try discriminate. eauto.
-  - intros H. apply Bool.negb_true_iff in H. rewrite H. eauto.
+  unfold validate_pub. intros H. apply Bool.andb_true_iff in H. destruct H as [_ H].
+  destruct (run_handler sls ht ps c) as [ps' []| |]; try discriminate. eauto.
 Qed.
 
 (* a proposal is stored only if its handler succeeds on the current state *)
@@ -467,7 +466,8 @@ Proof.
   intros Hp Hd. induction pms as [|pm r IH]; cbn; [discriminate|].
   cbn in Hp. apply Bool.andb_true_iff in Hp. destruct Hp as [Hpm Hr].
   assert (Hx : perm_allows pm ps c <> None).
-  { destruct pm, c; cbn; try discriminate. cbn in Hpm. now apply all_changes_no_panic. }
+  { destruct pm; cbn; try discriminate. destruct (body c); try discriminate.
+    cbn in Hpm. now apply all_changes_no_panic. }
   destruct (perm_allows pm ps c) as [[|]|]; [discriminate| |congruence]. now apply IH.
 Qed.
 
@@ -514,8 +514,11 @@ Qed.
 Lemma run_handler_docs sls ht ps c ps' u : run_handler sls ht ps c = Ok ps' u ->
   List.length ps' = List.length ps /\ (docs_ok ps -> docs_ok ps').
 Proof.
-  destruct c; cbn; intros H; [inversion H; subst; auto|eapply run_changes_docs; eauto| |discriminate].
-  destruct ((h <=? 0) || (h <? ht)); [discriminate|]. inversion H; subst; auto.
+  unfold run_handler. intros H.
+  destruct (body c) as [|chs|h| | | |a ok|a ok|t x ok|t x ok|c']; try discriminate;
+    try (destruct ok; [|discriminate]); try (inversion H; subst; auto; fail).
+  - eapply run_changes_docs; eauto.
+  - destruct ((h <=? 0) || (h <? ht)); [discriminate|]. inversion H; subst; auto.
 Qed.
 
 Definition good (s : state) : Prop := perms_ok s /\ docs_ok (params s).
@@ -651,7 +654,7 @@ Qed.
 Theorem begin_block_no_panic sls s t : good s -> step sls s (OBegin t) <> Panic.
 Proof.
   intros Hg. cbn. destruct (t <? now s); [discriminate|].
-  set (s0 := mkState _ _ _ _ _ _ _ t _ _).
+  set (s0 := mkState _ _ _ _ _ _ _ t _ _ _).
   assert (Hg0 : good s0) by (apply (good_frame s s0); auto).
   pose proof (process_all_no_panic sls (props s0) s0 Hg0) as H.
   pose proof (process_all_not_err sls (props s0) s0) as H'. unfold process_proposals.
@@ -735,11 +738,11 @@ Theorem begin_block_events sls s t s' evs :
   step sls s (OBegin t) = Ok s' (OutClosed evs) ->
   forall pid oc, In (pid, oc) evs ->
     exists p, In p (props s) /\ p_id p = pid /\
-      ev_ok (mkState (params s) (coms s) (props s) (votes s) (next_id s) (bals s) (supply s) t (height s + 1) (plan s)) p oc.
+      ev_ok (mkState (params s) (coms s) (props s) (votes s) (next_id s) (bals s) (supply s) t (height s + 1) (plan s) (enacted s)) p oc.
 Proof.
   intros Hnd H pid oc Hin. cbn in H. destruct (t <? now s); [discriminate|].
   unfold process_proposals in H. cbn [props] in H.
-  set (s0 := mkState _ _ _ _ _ _ _ t _ _) in *.
+  set (s0 := mkState _ _ _ _ _ _ _ t _ _ _) in *.
   destruct (process_all sls s0 (props s)) as [s1 e1| |] eqn:E; try discriminate.
   inversion H; subst s' evs.
   eapply (process_all_events sls s0 (props s) s0 s1 e1 E); auto.
@@ -759,4 +762,538 @@ Proof.
   destruct (has_perms (c_perms c) (params s) (p_content p)) as [[|]|]; [|reflexivity|congruence].
   destruct (validate_pub sls (height s) (params s) (p_content p)) eqn:Ev; [|reflexivity].
   destruct (validated_handler_ok _ _ _ _ Ev) as (ps & Hps). exfalso. exact (Hf ps Hps).
+Qed.
+
+(** * Part 3: the permission matrix; no permission, no submission and no enactment *)
+
+Lemma body_idem c : body (body c) = body c.
+Proof. induction c; cbn; auto. Qed.
+
+Lemma body_not_meta c c' : body c <> CBadMeta c'.
+Proof. induction c; cbn; try discriminate. exact IHc. Qed.
+
+(* ParamsChangePermission.Allows on a parameter-change proposal: the field-level check of part 1 *)
+Definition params_allows (acs : list allowed_change) (ps : list json) (c : content) : option bool :=
+  match body c with CParam chs => all_changes_allowed acs ps chs | _ => Some false end.
+
+(* the Allows matrix, row by row: each permission type against the Go type of the proposal *)
+Theorem permission_matrix ps c :
+  perm_allows PermGod ps c = Some true /\
+  perm_allows PermText ps c = Some (ctype_eqb (ctype_of c) TText) /\
+  perm_allows PermUpgrade ps c = Some (ctype_eqb (ctype_of c) TUpgrade) /\
+  perm_allows PermCdpRepay ps c = Some (ctype_eqb (ctype_of c) TCdpRepay) /\
+  perm_allows PermCdpWithdraw ps c = Some (ctype_eqb (ctype_of c) TCdpWithdraw) /\
+  perm_allows PermLendWithdraw ps c = Some (ctype_eqb (ctype_of c) TLendWithdraw) /\
+  forall acs, perm_allows (PermParams acs) ps c =
+    if ctype_eqb (ctype_of c) TParam then params_allows acs ps c else Some false.
+Proof.
+  unfold perm_allows, ctype_of, params_allows. pose proof (body_not_meta c) as Hb.
+  destruct (body c) as [|chs|h| | | |a ok|a ok|t x ok|t x ok|c']; cbn; repeat split; auto;
+    exfalso; eapply Hb; reflexivity.
+Qed.
+
+(* a permission of a type that cannot allow the content's type refuses it, whatever the state *)
+Lemma type_refuses pm ps c :
+  type_allows (ptype_of pm) (ctype_of c) = false -> perm_allows pm ps c = Some false.
+Proof.
+  unfold perm_allows, ctype_of. destruct pm; cbn; destruct (body c); cbn; congruence.
+Qed.
+
+Lemma allows_type pm ps c :
+  perm_allows pm ps c = Some true -> type_allows (ptype_of pm) (ctype_of c) = true.
+Proof.
+  intros H. destruct (type_allows (ptype_of pm) (ctype_of c)) eqn:E; [reflexivity|].
+  rewrite (type_refuses pm ps c E) in H. discriminate.
+Qed.
+
+(* for the six permission types without parameters the table is the whole answer *)
+Lemma allows_exact pm ps c :
+  ptype_of pm <> PTParams -> perm_allows pm ps c = Some (type_allows (ptype_of pm) (ctype_of c)).
+Proof.
+  unfold perm_allows, ctype_of. pose proof (body_not_meta c) as Hb. intros Hn.
+  destruct pm; cbn in *; try congruence; destruct (body c); cbn; try reflexivity;
+    exfalso; eapply Hb; reflexivity.
+Qed.
+
+(* each community permission allows its own proposal type and nothing else *)
+Theorem community_permissions_exact ps c :
+  (perm_allows PermCdpRepay ps c = Some true <-> exists t x ok, body c = CCdpRepay t x ok) /\
+  (perm_allows PermCdpWithdraw ps c = Some true <-> exists t x ok, body c = CCdpWithdraw t x ok) /\
+  (perm_allows PermLendWithdraw ps c = Some true <-> exists a ok, body c = CLendWithdraw a ok).
+Proof.
+  unfold perm_allows.
+  repeat split; intros H; try (destruct (body c); try discriminate; eauto; fail);
+    try (destruct H as (? & ? & ? & ->); reflexivity); try (destruct H as (? & ? & ->); reflexivity).
+Qed.
+
+(* no permission type but God allows a lend-deposit, committee-change, cancel-upgrade or
+   pool-spend proposal *)
+Theorem only_god_allows_the_rest pm ps c :
+  ctype_of c = TLendDeposit \/ ctype_of c = TCommitteeChange \/ ctype_of c = TCancelUpgrade \/ ctype_of c = TPoolSpend ->
+  perm_allows pm ps c = Some true -> pm = PermGod.
+Proof.
+  intros Ht H. apply allows_type in H. destruct Ht as [Ht|[Ht|[Ht|Ht]]]; rewrite Ht in H;
+    destruct pm; cbn in H; congruence.
+Qed.
+
+(* ... and a lend-deposit or committee-change proposal cannot be submitted to any committee,
+   God permission or not: MsgSubmitProposal cannot carry it *)
+Theorem undecodable_never_submitted sls s proposer cid c :
+  ctype_of c = TLendDeposit \/ ctype_of c = TCommitteeChange ->
+  step sls s (OSubmit proposer cid c) = Err.
+Proof.
+  intros Ht. cbn. unfold decodable. unfold ctype_of in Ht.
+  destruct (body c); destruct Ht as [Ht|Ht]; try discriminate; reflexivity.
+Qed.
+
+Lemma has_perms_true_ex pms ps c : has_perms pms ps c = Some true ->
+  exists pm, In pm pms /\ perm_allows pm ps c = Some true.
+Proof.
+  induction pms as [|pm r IH]; cbn; [discriminate|].
+  destruct (perm_allows pm ps c) as [[|]|] eqn:E; try discriminate.
+  - intros _. exists pm. auto.
+  - intros H. destruct (IH H) as (q & Hq & Ha). exists q. auto.
+Qed.
+
+Lemma has_perms_all_refuse pms ps c :
+  (forall pm, In pm pms -> perm_allows pm ps c = Some false) -> has_perms pms ps c = Some false.
+Proof.
+  induction pms as [|pm r IH]; cbn; intros H; [reflexivity|].
+  rewrite (H pm (or_introl eq_refl)). apply IH. intros q Hq. apply H. now right.
+Qed.
+
+(* a committee none of whose permissions allows the content cannot submit it ... *)
+Theorem no_permission_no_submit sls s proposer cid c cm :
+  find_com s cid = Some cm ->
+  (forall pm, In pm (c_perms cm) -> perm_allows pm (params s) c = Some false) ->
+  step sls s (OSubmit proposer cid c) = Err.
+Proof.
+  intros Hc Hp. cbn. rewrite Hc, (has_perms_all_refuse _ _ _ Hp).
+  destruct (negb (decodable c)); [reflexivity|].
+  destruct (negb (validate_basic c)); [reflexivity|].
+  destruct (negb (mem_nat proposer (c_members cm))); reflexivity.
+Qed.
+
+(* ... and cannot enact it: the re-check of enactProposal answers Invalid and nothing changes *)
+Theorem no_permission_no_enact sls s p cm :
+  find_com s (p_com p) = Some cm ->
+  (forall pm, In pm (c_perms cm) -> perm_allows pm (params s) (p_content p) = Some false) ->
+  attempt_enact sls s p = Ok s Invalid.
+Proof.
+  intros Hc Hp. unfold attempt_enact. now rewrite Hc, (has_perms_all_refuse _ _ _ Hp).
+Qed.
+
+(* in terms of types only (no reference to the state; never a panic) *)
+Corollary wrong_type_no_submit_no_enact sls s cm c :
+  (forall pm, In pm (c_perms cm) -> type_allows (ptype_of pm) (ctype_of c) = false) ->
+  (forall proposer cid, find_com s cid = Some cm -> step sls s (OSubmit proposer cid c) = Err) /\
+  (forall p, p_content p = c -> find_com s (p_com p) = Some cm -> attempt_enact sls s p = Ok s Invalid).
+Proof.
+  intros Ht. split.
+  - intros proposer cid Hc. eapply no_permission_no_submit; eauto.
+    intros pm Hin. apply type_refuses. auto.
+  - intros p <- Hc. eapply no_permission_no_enact; eauto.
+    intros pm Hin. apply type_refuses. auto.
+Qed.
+
+(* what a stored proposal went through: ValidateBasic, a route, a permission of its committee *)
+Lemma submit_spec sls s proposer cid c s' x :
+  step sls s (OSubmit proposer cid c) = Ok s' x ->
+  decodable c = true /\ validate_basic c = true /\ has_route c = true /\
+  exists cm pm, find_com s cid = Some cm /\ In pm (c_perms cm) /\
+    perm_allows pm (params s) c = Some true /\ type_allows (ptype_of pm) (ctype_of c) = true /\
+    s' = mkState (params s) (coms s) (props s ++ [mkProp (next_id s) cid (now s + c_duration cm) c])
+                 (votes s) (S (next_id s)) (bals s) (supply s) (now s) (height s) (plan s) (enacted s).
+Proof.
+  intros H. cbn in H. brk H.
+  match goal with E : negb (validate_pub _ _ _ _) = false |- _ => apply Bool.negb_false_iff in E; rename E into Hv end.
+  unfold validate_pub in Hv. apply Bool.andb_true_iff in Hv. destruct Hv as [Hv _].
+  apply Bool.andb_true_iff in Hv. destruct Hv as [Hb Hr].
+  match goal with E : has_perms _ _ _ = Some true |- _ => destruct (has_perms_true_ex _ _ _ E) as (pm & Hin & Ha) end.
+  match goal with E : negb (decodable _) = false |- _ => apply Bool.negb_false_iff in E; rename E into Hd end.
+  split; [exact Hd|]. split; [exact Hb|]. split; [exact Hr|].
+  eexists _, pm. split; [reflexivity|]. split; [exact Hin|]. split; [exact Ha|].
+  split; [eapply allows_type; eauto|]. inversion H; reflexivity.
+Qed.
+
+(** ** every enactment of a begin block is allowed by a permission of the proposal's committee *)
+
+Lemma process_all_passed sls l : forall si s' evs,
+  process_all sls si l = Ok s' evs ->
+  forall pid, In (pid, Passed) evs ->
+  exists p sj cm, In p l /\ p_id p = pid /\ coms sj = coms si /\ find_com sj (p_com p) = Some cm /\
+    has_perms (c_perms cm) (params sj) (p_content p) = Some true /\
+    validate_pub sls (height sj) (params sj) (p_content p) = true.
+Proof.
+  induction l as [|p r IH]; cbn; intros si s' evs H pid Hin.
+  - inversion H; subst. contradiction.
+  - destruct (process_one sls si p) as [s1 o1| |] eqn:E1; try discriminate.
+    destruct (process_all sls s1 r) as [s2 evs2| |] eqn:E2; try discriminate. inversion H; subst s' evs.
+    destruct (process_one_frame _ _ _ _ _ E1) as (Gc & _).
+    assert (Hrest : In (pid, Passed) evs2 ->
+      exists p0 sj cm, In p0 (p :: r) /\ p_id p0 = pid /\ coms sj = coms si /\ find_com sj (p_com p0) = Some cm /\
+        has_perms (c_perms cm) (params sj) (p_content p0) = Some true /\
+        validate_pub sls (height sj) (params sj) (p_content p0) = true).
+    { intros Hi. destruct (IH _ _ _ E2 pid Hi) as (p0 & sj & cm & H0 & H1 & H2 & H3).
+      exists p0, sj, cm. split; [now right|]. split; [exact H1|]. split; [congruence|exact H3]. }
+    destruct o1 as [x|]; [|now apply Hrest].
+    destruct Hin as [Eq|Hi]; [|now apply Hrest].
+    inversion Eq; subst pid x. clear Hrest.
+    apply process_one_spec in E1. destruct (find_com si (p_com p)) as [c|] eqn:Ec; [|destruct E1; discriminate].
+    cbv zeta in E1. destruct ((p_deadline p <=? now si) || _); [|destruct E1; discriminate].
+    destruct (tally si c (p_id p)); [|destruct E1; discriminate].
+    destruct E1 as (s0 & y & Ha & Ey & _). inversion Ey; subst y.
+    destruct (attempt_enact_spec _ _ _ _ _ Ha) as [[_ (c' & ps & Hc' & Hp & Hv & _)]|[Hx _]]; [|discriminate].
+    exists p, si, c'. split; [now left|]. auto.
+Qed.
+
+Theorem begin_block_passed_allowed sls s t s' evs :
+  step sls s (OBegin t) = Ok s' (OutClosed evs) ->
+  forall pid, In (pid, Passed) evs ->
+  exists p cm pm, In p (props s) /\ p_id p = pid /\ find_com s (p_com p) = Some cm /\ In pm (c_perms cm) /\
+    type_allows (ptype_of pm) (ctype_of (p_content p)) = true /\
+    validate_basic (p_content p) = true /\ has_route (p_content p) = true.
+Proof.
+  intros H pid Hin. cbn in H. destruct (t <? now s); [discriminate|].
+  unfold process_proposals in H. cbn [props] in H.
+  set (s0 := mkState _ _ _ _ _ _ _ t _ _ _) in *.
+  destruct (process_all sls s0 (props s)) as [s1 e1| |] eqn:E; try discriminate.
+  inversion H; subst s' evs.
+  destruct (process_all_passed _ _ _ _ _ E pid Hin) as (p & sj & cm & Hp & Hid & Hc & Hf & Hperm & Hv).
+  destruct (has_perms_true_ex _ _ _ Hperm) as (pm & Hpm & Ha).
+  unfold validate_pub in Hv. apply Bool.andb_true_iff in Hv. destruct Hv as [Hv _].
+  apply Bool.andb_true_iff in Hv. destruct Hv as [Hb Hr].
+  exists p, cm, pm. split; [exact Hp|]. split; [exact Hid|].
+  split; [unfold find_com in *; rewrite Hc in Hf; exact Hf|].
+  split; [exact Hpm|]. split; [eapply allows_type; eauto|]. auto.
+Qed.
+
+(** ** which handler ran: the counters of community keeper calls *)
+
+Lemma msg_no_enact sls s o s' x : is_msg o -> step sls s o = Ok s' x -> enacted s' = enacted s.
+Proof.
+  intros Hm H. destruct o; cbn in Hm; try contradiction; cbn in H; brk H; inversion H; subst; reflexivity.
+Qed.
+
+Lemma attempt_enact_enacted sls s p s0 oc : attempt_enact sls s p = Ok s0 oc ->
+  enacted s0 = match oc with Passed => bump (p_content p) (enacted s) | _ => enacted s end
+  /\ (oc <> Passed -> plan s0 = plan s).
+Proof.
+  intros H. destruct (attempt_enact_spec _ _ _ _ _ H) as [[-> (c & ps & _ & _ & _ & _ & ->)]|[-> ->]].
+  - split; [reflexivity|congruence].
+  - auto.
+Qed.
+
+(* a begin block without a Passed close changes neither parameters, nor the upgrade plan, nor the counters *)
+Lemma process_one_nopass sls s p s1 oc : process_one sls s p = Ok s1 oc -> oc <> Some Passed ->
+  params s1 = params s /\ plan s1 = plan s /\ enacted s1 = enacted s.
+Proof.
+  intros H Hn. apply process_one_spec in H.
+  destruct (find_com s (p_com p)) as [c|]; [|destruct H as [_ ->]; auto].
+  cbv zeta in H. destruct ((p_deadline p <=? now s) || _); [|destruct H as [_ ->]; auto].
+  destruct (tally s c (p_id p)); [|destruct H as [_ ->]; auto].
+  destruct H as (s0 & x & Ha & -> & ->).
+  destruct (attempt_enact_spec _ _ _ _ _ Ha) as [[-> _]|[-> ->]]; [congruence|auto].
+Qed.
+
+Lemma process_all_nopass sls l : forall si s' evs, process_all sls si l = Ok s' evs ->
+  (forall pid, ~ In (pid, Passed) evs) ->
+  params s' = params si /\ plan s' = plan si /\ enacted s' = enacted si.
+Proof.
+  induction l as [|p r IH]; cbn; intros si s' evs H Hn.
+  - inversion H; subst. auto.
+  - destruct (process_one sls si p) as [s1 o1| |] eqn:E1; try discriminate.
+    destruct (process_all sls s1 r) as [s2 evs2| |] eqn:E2; try discriminate. inversion H; subst s' evs.
+    assert (Ho : o1 <> Some Passed).
+    { intros ->. apply (Hn (p_id p)). now left. }
+    destruct (process_one_nopass _ _ _ _ _ E1 Ho) as (A1 & A2 & A3).
+    assert (Hn2 : forall pid, ~ In (pid, Passed) evs2).
+    { intros pid Hi. apply (Hn pid). destruct o1; [now right|exact Hi]. }
+    destruct (IH _ _ _ E2 Hn2) as (B1 & B2 & B3). repeat split; congruence.
+Qed.
+
+Theorem begin_block_nothing_passed_no_effect sls s t s' evs :
+  step sls s (OBegin t) = Ok s' (OutClosed evs) -> (forall pid, ~ In (pid, Passed) evs) ->
+  params s' = params s /\ plan s' = plan s /\ enacted s' = enacted s.
+Proof.
+  intros H Hn. cbn in H. destruct (t <? now s); [discriminate|].
+  unfold process_proposals in H. cbn [props] in H.
+  destruct (process_all sls _ (props s)) as [s1 e1| |] eqn:E; try discriminate.
+  inversion H; subst s' evs. exact (process_all_nopass _ _ _ _ _ E Hn).
+Qed.
+
+(* the ghost refresh touches nothing a permission, ValidateBasic or the router looks at *)
+Lemma set_ok_same c b :
+  ctype_of (set_ok c b) = ctype_of c /\
+  validate_basic (set_ok c b) = validate_basic c /\ has_route (set_ok c b) = has_route c /\
+  forall pm ps, perm_allows pm ps (set_ok c b) = perm_allows pm ps c.
+Proof.
+  destruct c; cbn; repeat split; auto.
+Qed.
+
+(** * Part 4: votes, deleted committees *)
+
+(* an accepted vote, exactly: a pending proposal of an existing committee, strictly
+   before the deadline, a vote type in 1..3; member committees: a member, and yes only;
+   token committees: anybody, any of the three types *)
+Theorem vote_accepted_spec sls s pid voter vt s' x :
+  step sls s (OVote pid voter vt) = Ok s' x ->
+  exists p cm, find_prop s pid = Some p /\ now s < p_deadline p /\ find_com s (p_com p) = Some cm /\
+    1 <= vt <= 3 /\
+    (c_kind cm = CMember -> mem_nat voter (c_members cm) = true /\ vt = 1) /\
+    s' = set_pv s (props s) (vote_put (mkVote pid voter vt (now s)) (votes s)).
+Proof.
+  intros H. cbn in H.
+  destruct ((1 <=? vt) && (vt <=? 3)) eqn:Er; cbn in H; [|discriminate].
+  destruct (find_prop s pid) as [p|] eqn:Ep; [|discriminate].
+  destruct (p_deadline p <=? now s) eqn:Ed; [discriminate|].
+  destruct (find_com s (p_com p)) as [cm|] eqn:Ec; [|discriminate].
+  exists p, cm. split; [reflexivity|]. split; [lia|]. split; [exact Ec|]. split; [lia|].
+  destruct (c_kind cm) eqn:Ek.
+  - destruct (mem_nat voter (c_members cm)) eqn:Em; cbn in H; [|discriminate].
+    destruct (vt =? 1) eqn:Ev; cbn in H; [|discriminate].
+    split; [intros _; split; [reflexivity|lia]|]. now inversion H.
+  - split; [discriminate|]. now inversion H.
+Qed.
+
+(* votes at or after the deadline are refused, whatever else holds *)
+Theorem vote_at_deadline_refused sls s pid voter vt p :
+  find_prop s pid = Some p -> p_deadline p <= now s -> step sls s (OVote pid voter vt) = Err.
+Proof.
+  intros Hp Hd. cbn. destruct (negb _); [reflexivity|]. rewrite Hp.
+  destruct (p_deadline p <=? now s) eqn:E; [reflexivity|lia].
+Qed.
+
+(* so are votes on proposals that do not exist (any more) or whose committee is gone *)
+Theorem vote_without_proposal_or_committee_refused sls s pid voter vt :
+  find_prop s pid = None \/ (exists p, find_prop s pid = Some p /\ find_com s (p_com p) = None) ->
+  step sls s (OVote pid voter vt) = Err.
+Proof.
+  intros [Hp|(p & Hp & Hc)]; cbn; destruct (negb _); try reflexivity; rewrite Hp; [reflexivity|].
+  destruct (p_deadline p <=? now s); [reflexivity|]. now rewrite Hc.
+Qed.
+
+(** ** a repeated vote replaces the earlier one: the store holds one vote per (proposal, voter) *)
+
+Definition vlt (v w : vote) : Prop := vote_lt v w = true.
+Definition votes_sorted (l : list vote) : Prop := StronglySorted vlt l.
+Definition same_key (v w : vote) : Prop := v_pid v = v_pid w /\ v_voter v = v_voter w.
+
+Lemma vote_lt_spec v w : vote_lt v w = true <->
+  (v_pid v < v_pid w)%nat \/ (v_pid v = v_pid w /\ (v_voter v < v_voter w)%nat).
+Proof.
+  unfold vote_lt. rewrite Bool.orb_true_iff, Bool.andb_true_iff, !Nat.ltb_lt, Nat.eqb_eq. tauto.
+Qed.
+
+Lemma vlt_trans a b c : vlt a b -> vlt b c -> vlt a c.
+Proof. unfold vlt. rewrite !vote_lt_spec. lia. Qed.
+
+Lemma vlt_irrefl_key a b : vlt a b -> ~ same_key a b.
+Proof. unfold vlt, same_key. rewrite vote_lt_spec. lia. Qed.
+
+Lemma vote_put_spec v : forall l, votes_sorted l ->
+  votes_sorted (vote_put v l) /\
+  (forall w, In w (vote_put v l) <-> (w = v \/ (In w l /\ ~ same_key w v))).
+Proof.
+  induction l as [|a r IH]; intros Hs.
+  - cbn. split; [repeat constructor|]. intros w. split; [intros [<-|[]]; now left|intros [->|[[] _]]; now left].
+  - inversion Hs as [|? ? Hr Ha]; subst. rewrite Forall_forall in Ha. cbn [vote_put].
+    destruct (Nat.eqb (v_pid a) (v_pid v) && Nat.eqb (v_voter a) (v_voter v)) eqn:Ek.
+    + apply Bool.andb_true_iff in Ek. destruct Ek as [E1 E2]. apply Nat.eqb_eq in E1, E2.
+      split.
+      * constructor; [exact Hr|]. rewrite Forall_forall. intros w Hw. specialize (Ha w Hw).
+        unfold vlt in *. rewrite vote_lt_spec in *. cbn. lia.
+      * intros w. cbn [In]. split.
+        -- intros [<-|Hw]; [now left|]. right. split; [now right|].
+           specialize (Ha w Hw). unfold vlt in Ha. rewrite vote_lt_spec in Ha. unfold same_key. lia.
+        -- intros [->|[[<-|Hw] Hn]]; [now left| |now right]. exfalso. apply Hn. split; assumption.
+    + assert (Hne : ~ same_key a v).
+      { unfold same_key. intros [E1 E2]. rewrite E1, E2, !Nat.eqb_refl in Ek. discriminate. }
+      destruct (vote_lt v a) eqn:El.
+      * split.
+        -- constructor; [exact Hs|]. rewrite Forall_forall. intros w [<-|Hw]; [exact El|].
+           eapply vlt_trans; [exact El|]. now apply Ha.
+        -- intros w. cbn [In]. split.
+           ++ intros [<-|[<-|Hw]]; [now left|right; split; [now left|exact Hne]|].
+              right. split; [now right|]. intros Hk. specialize (Ha w Hw).
+              assert (vlt v w) by (eapply vlt_trans; [exact El|exact Ha]).
+              apply (vlt_irrefl_key v w); [assumption|]. unfold same_key in *. lia.
+           ++ intros [->|[[<-|Hw] _]]; auto.
+      * destruct (IH Hr) as [Hs' Hin]. split.
+        -- constructor; [exact Hs'|]. rewrite Forall_forall. intros w Hw. apply Hin in Hw.
+           destruct Hw as [->|[Hw _]]; [|now apply Ha].
+           unfold vlt. rewrite vote_lt_spec. apply Bool.not_true_iff_false in El. rewrite vote_lt_spec in El.
+           unfold same_key in Hne. lia.
+        -- intros w. cbn [In]. rewrite Hin. split.
+           ++ intros [<-|[->|[Hw Hn]]]; [right; split; [now left|exact Hne]|now left|right; split; [now right|exact Hn]].
+           ++ intros [->|[[<-|Hw] Hn]]; [right; now left|now left|right; right; auto].
+Qed.
+
+(* strict order: no two stored votes share proposal and voter *)
+Lemma votes_sorted_unique l : votes_sorted l -> forall v w, In v l -> In w l -> same_key v w -> v = w.
+Proof.
+  induction 1 as [|a r Hr IH Ha]; intros v w Hv Hw Hk; [contradiction|].
+  rewrite Forall_forall in Ha.
+  destruct Hv as [<-|Hv], Hw as [<-|Hw]; auto.
+  - exfalso. exact (vlt_irrefl_key _ _ (Ha w Hw) Hk).
+  - exfalso. apply (vlt_irrefl_key _ _ (Ha v Hv)). unfold same_key in *. lia.
+Qed.
+
+Theorem vote_replaces_earlier_vote sls s pid voter vt s' x :
+  votes_sorted (votes s) -> step sls s (OVote pid voter vt) = Ok s' x ->
+  votes_sorted (votes s') /\
+  (forall w, In w (votes s') <->
+     (w = mkVote pid voter vt (now s) \/ (In w (votes s) /\ ~ (v_pid w = pid /\ v_voter w = voter)))) /\
+  (forall w, In w (votes s') -> v_pid w = pid -> v_voter w = voter -> w = mkVote pid voter vt (now s)).
+Proof.
+  intros Hs H. destruct (vote_accepted_spec _ _ _ _ _ _ _ H) as (p & cm & _ & _ & _ & _ & _ & ->). cbn [votes set_pv].
+  destruct (vote_put_spec (mkVote pid voter vt (now s)) _ Hs) as [Hs' Hin].
+  split; [exact Hs'|]. split; [exact Hin|].
+  intros w Hw E1 E2. apply Hin in Hw. destruct Hw as [->|[_ Hn]]; [reflexivity|].
+  exfalso. apply Hn. split; assumption.
+Qed.
+
+Lemma filter_sorted {A} (R : A -> A -> Prop) f l : StronglySorted R l -> StronglySorted R (filter f l).
+Proof.
+  induction 1 as [|a r Hr IH Ha]; cbn; [constructor|].
+  destruct (f a); [|exact IH]. constructor; [exact IH|].
+  rewrite Forall_forall in *. intros w Hw. apply filter_In in Hw. now apply Ha.
+Qed.
+
+Lemma close_votes_sorted s pid : votes_sorted (votes s) -> votes_sorted (votes (close s pid)).
+Proof. intros H. cbn. now apply filter_sorted. Qed.
+
+Lemma close_all_votes_sorted l : forall s, votes_sorted (votes s) ->
+  votes_sorted (votes (fold_left (fun st p => close st (p_id p)) l s)).
+Proof.
+  induction l as [|p r IH]; cbn [fold_left]; intros s H; [exact H|]. apply IH. now apply close_votes_sorted.
+Qed.
+
+Lemma process_all_votes_sorted sls l : forall s s' evs, process_all sls s l = Ok s' evs ->
+  votes_sorted (votes s) -> votes_sorted (votes s').
+Proof.
+  induction l as [|p r IH]; cbn; intros s s' evs H Hs; [inversion H; now subst|].
+  destruct (process_one sls s p) as [s1 o1| |] eqn:E1; try discriminate.
+  destruct (process_all sls s1 r) as [s2 evs2| |] eqn:E2; try discriminate. inversion H; subst s' evs.
+  eapply IH; [exact E2|].
+  destruct (process_one_frame _ _ _ _ _ E1) as (_ & _ & _ & _ & _ & _ & _ & _ & Hc).
+  destruct o1; [destruct Hc as [_ ->]; now apply filter_sorted|destruct Hc as [_ ->]; exact Hs].
+Qed.
+
+(* ... and that holds in every reachable state *)
+Theorem votes_sorted_step sls s o s' x : votes_sorted (votes s) -> step sls s o = Ok s' x -> votes_sorted (votes s').
+Proof.
+  intros Hs H. destruct o.
+  - cbn in H. brk H. inversion H; now subst.
+  - cbn in H. brk H; inversion H; subst; exact Hs.
+  - destruct (submit_spec _ _ _ _ _ _ _ H) as (_ & _ & _ & cm & pm & _ & _ & _ & _ & ->). exact Hs.
+  - destruct (vote_replaces_earlier_vote _ _ _ _ _ _ _ Hs H) as [H' _]. exact H'.
+  - cbn in H. destruct (t <? now s); [discriminate|]. unfold process_proposals in H.
+    destruct (process_all sls _ _) as [s1 e1| |] eqn:E; try discriminate. inversion H; subst.
+    eapply process_all_votes_sorted; [exact E|exact Hs].
+  - cbn in H. brk H. inversion H; subst. exact Hs.
+  - cbn in H. destruct (negb (committee_valid c)); [discriminate|]. unfold close_all_of in H.
+    inversion H; subst. cbn. now apply close_all_votes_sorted.
+  - cbn in H. unfold close_all_of in H. inversion H; subst. cbn. now apply close_all_votes_sorted.
+  - cbn in H. inversion H; subst. exact Hs.
+Qed.
+
+Theorem votes_sorted_run sls ops : forall s, votes_sorted (votes s) -> votes_sorted (votes (run sls s ops)).
+Proof.
+  induction ops as [|o r IH]; intros s Hs; [exact Hs|]. cbn. apply IH. unfold step'.
+  destruct (step sls s o) as [s1 x| |] eqn:E; [|exact Hs|exact Hs]. eapply votes_sorted_step; eauto.
+Qed.
+
+(** ** deleting (or replacing) a committee closes all of its proposals at once *)
+
+Lemma close_all_props l : forall s,
+  props (fold_left (fun st p => close st (p_id p)) l s)
+  = filter (fun q => negb (existsb (fun p => Nat.eqb (p_id q) (p_id p)) l)) (props s).
+Proof.
+  induction l as [|p r IH]; intros s; cbn [fold_left].
+  - cbn. symmetry. induction (props s) as [|a t IHt]; cbn; [reflexivity|]. now rewrite IHt.
+  - rewrite IH. cbn [props close set_pv]. induction (props s) as [|a t IHt]; cbn; [reflexivity|].
+    destruct (Nat.eqb (p_id a) (p_id p)); cbn; [exact IHt|].
+    destruct (existsb _ r); cbn; [exact IHt|]. now rewrite IHt.
+Qed.
+
+Theorem delete_committee_closes_its_proposals sls s id s' x :
+  step sls s (ODeleteCommittee id) = Ok s' x ->
+  find_com s' id = None /\ (forall q, In q (props s') -> p_com q <> id /\ In q (props s)) /\
+  x = OutClosed (map (fun p => (p_id p, Failed)) (filter (fun p => Nat.eqb (p_com p) id) (props s))).
+Proof.
+  intros H. cbn in H. unfold close_all_of in H. inversion H; subst; clear H. split; [|split; [|reflexivity]].
+  - unfold find_com. cbn [coms set_coms]. 
+    match goal with |- find _ (filter _ ?l) = None => induction l as [|a t IHt] end; cbn; [reflexivity|].
+    destruct (Nat.eqb (c_id a) id) eqn:E; cbn; [exact IHt|]. now rewrite E.
+  - intros q Hq. cbn [props set_coms] in Hq. rewrite close_all_props in Hq.
+    apply filter_In in Hq. destruct Hq as [Hin Hn]. split; [|exact Hin].
+    intros Hc. apply Bool.negb_true_iff in Hn.
+    assert (existsb (fun p => Nat.eqb (p_id q) (p_id p)) (filter (fun p => Nat.eqb (p_com p) id) (props s)) = true).
+    { apply existsb_exists. exists q. split; [|apply Nat.eqb_refl].
+      apply filter_In. split; [exact Hin|]. now apply Nat.eqb_eq. }
+    congruence.
+Qed.
+
+(** ** what the proposal store can hold, in every reachable state *)
+
+Definition content_ok (c : content) : bool := decodable c && validate_basic c && has_route c.
+Definition store_ok (s : state) : Prop := Forall (fun p => content_ok (p_content p) = true) (props s).
+
+Lemma content_ok_set_ok c b : content_ok (set_ok c b) = content_ok c.
+Proof. destruct c; reflexivity. Qed.
+
+Lemma Forall_filter {A} (P : A -> Prop) f l : Forall P l -> Forall P (filter f l).
+Proof. rewrite !Forall_forall. intros H x Hx. apply filter_In in Hx. now apply H. Qed.
+
+Lemma process_all_store sls l : forall s s' evs, process_all sls s l = Ok s' evs -> store_ok s -> store_ok s'.
+Proof.
+  induction l as [|p r IH]; cbn; intros s s' evs H Hs; [inversion H; now subst|].
+  destruct (process_one sls s p) as [s1 o1| |] eqn:E1; try discriminate.
+  destruct (process_all sls s1 r) as [s2 evs2| |] eqn:E2; try discriminate. inversion H; subst s' evs.
+  eapply IH; [exact E2|]. unfold store_ok in *.
+  destruct (process_one_frame _ _ _ _ _ E1) as (_ & _ & _ & _ & _ & _ & _ & _ & Hc).
+  destruct o1; [destruct Hc as [-> _]; now apply Forall_filter|destruct Hc as [-> _]; exact Hs].
+Qed.
+
+Lemma store_ok_step sls s o s' x : store_ok s -> step sls s o = Ok s' x -> store_ok s'.
+Proof.
+  unfold store_ok. intros Hs H. destruct o.
+  - cbn in H. brk H. inversion H; now subst.
+  - cbn in H. brk H; inversion H; subst; exact Hs.
+  - destruct (submit_spec _ _ _ _ _ _ _ H) as (Hd & Hb & Hr & cm & pm & _ & _ & _ & _ & ->). cbn [props].
+    apply Forall_app. split; [exact Hs|]. constructor; [|constructor]. cbn [p_content].
+    unfold content_ok. now rewrite Hd, Hb, Hr.
+  - destruct (vote_accepted_spec _ _ _ _ _ _ _ H) as (p & cm & _ & _ & _ & _ & _ & ->). exact Hs.
+  - cbn in H. destruct (t <? now s); [discriminate|]. unfold process_proposals in H.
+    destruct (process_all sls _ _) as [s1 e1| |] eqn:E; try discriminate. inversion H; subst.
+    eapply process_all_store; [exact E|exact Hs].
+  - cbn in H. brk H. inversion H; subst. exact Hs.
+  - cbn in H. destruct (negb (committee_valid c)); [discriminate|]. unfold close_all_of in H.
+    inversion H; subst. cbn [props set_coms]. rewrite close_all_props. now apply Forall_filter.
+  - cbn in H. unfold close_all_of in H. inversion H; subst. cbn [props set_coms].
+    rewrite close_all_props. now apply Forall_filter.
+  - cbn in H. inversion H; subst. cbn [props set_pv]. rewrite Forall_forall in *. intros q Hq.
+    apply in_map_iff in Hq. destruct Hq as (p & <- & Hp). unfold oracle_prop.
+    destruct (find _ l); cbn [p_content]; [rewrite content_ok_set_ok|]; now apply Hs.
+Qed.
+
+Theorem store_ok_run sls ops : forall s, store_ok s -> store_ok (run sls s ops).
+Proof.
+  induction ops as [|o r IH]; intros s Hs; [exact Hs|]. cbn. apply IH. unfold step'.
+  destruct (step sls s o) as [s1 x| |] eqn:E; [|exact Hs|exact Hs]. eapply store_ok_step; eauto.
+Qed.
+
+(* hence no stored proposal is ever a lend deposit, a committee change, a pool spend, or
+   a content with a refused title or description *)
+Corollary never_stored sls ops s p :
+  store_ok s -> In p (props (run sls s ops)) ->
+  ctype_of (p_content p) <> TLendDeposit /\ ctype_of (p_content p) <> TCommitteeChange /\
+  ctype_of (p_content p) <> TPoolSpend /\ (forall c, p_content p <> CBadMeta c).
+Proof.
+  intros Hs Hp. pose proof (store_ok_run sls ops s Hs) as H. unfold store_ok in H.
+  rewrite Forall_forall in H. specialize (H p Hp). unfold content_ok, decodable, has_route, ctype_of in *.
+  apply Bool.andb_true_iff in H. destruct H as [H Hr]. apply Bool.andb_true_iff in H. destruct H as [Hd Hb].
+  repeat split; try (intros E; destruct (body (p_content p)); discriminate).
+  intros c E. rewrite E in Hb. discriminate.
 Qed.
